@@ -75,6 +75,15 @@ SameMut == \/ \E c \in {c1, c2} : Churn(c)
 SameLastNext == steps < MaxSteps /\ IF steps < MaxSteps - 1 THEN SameMut ELSE ApiPublish(<<"a">>, 2, FALSE, "x")
 SameLastSpec == BothUp({<<"a">>}) /\ [][SameLastNext]_vars
 
+(* C01, the largest messages a client can publish through a 16 KiB ring (payload "M": the packet is a few bytes short of
+   ring minus one read block), at every QoS, back to back with small ones: all paths *)
+BigNext == steps < MaxSteps /\
+  \/ \E q \in 0..1, pl \in {"M", "x"} : Publish(c1, <<"a">>, q, FALSE, pl, 5, FALSE)
+  \/ Publish2(c1, <<"a">>, FALSE, "M", 7, FALSE) \/ Pubrel(c1, 7)
+  \/ \E q \in {0, 2} : Subscribe(c2, 1, << <<<<"a">>, q>> >>)
+  \/ ApiSubscribe(L1, <<"a">>, 1)
+BigSpec == BothUp({<<"a">>}) /\ [][BigNext]_vars
+
 (* C02 receiver side of QoS 1/2: publisher c1, witness c2 subscribed to '#' at QoS 2;
    big QoS 0 filler traffic wraps the 16 KiB ring between PUBLISH and PUBREL          *)
 QNames == {<<"a">>, <<"z">>}
